@@ -7,7 +7,7 @@ import PnVerif.Spec.Dataset
 
     lake env lean --run / .lake/build/bin/apidrv  <script> <nprocs>
 -/
-open PnVerif.Spec PnVerif.Gen.Consts
+open PnVerif.Spec.Dataset PnVerif.Gen.Consts
 
 structure Line where
   step : Nat
